@@ -14,7 +14,7 @@ static std::vector<std::string> strs_p(const Json &j) { std::vector<std::string>
 static Json ints_j(const std::vector<int> &v) { Json a = Json::arr(); for (int x : v) a.push(x); return a; }
 static std::vector<int> ints_p(const Json &j) { std::vector<int> v; for (size_t i = 0; i < j.size(); i++) v.push_back((int) j[i].as_int()); return v; }
 
-static const char *const step_names[] = { "write", "read", "read_eof", "sleep", "close", "exit", "raise", "echo" };
+static const char *const step_names[] = { "write", "read", "read_eof", "sleep", "close", "exit", "raise", "echo", "spawn" };
 static const char *const term_names[] = { "die", "ignore", "exit_after", "die_after" };
 
 Json Plan::to_json() const {
@@ -33,7 +33,10 @@ Json Plan::to_json() const {
   w.set("reoccupy_num", this->w.k.reoccupy_num);
   w.set("zombie_gap", this->w.k.zombie_gap);
   w.set("stick_pct", this->w.k.stick_pct);
+  w.set("core_dumps", this->w.k.core_dumps);
+  w.set("clock_step_at_ms", (long long) this->w.k.clock_step_at_ms).set("clock_step_ms", (long long) this->w.k.clock_step_ms);
   w.set("low_fds", this->w.low_fds);
+  w.set("sigpipe", this->w.sigpipe);
   Json ex = Json::arr();
   for (auto &e : this->w.extra) ex.push(Json::arr().push(e.fd).push(e.kind).push(e.cloexec ? 1 : 0));
   w.set("extra_fds", ex);
@@ -108,7 +111,11 @@ bool Plan::from_json(const Json &j, Plan *p) {
   p->w.k.reoccupy_num = (unsigned) w.num("reoccupy_num");
   p->w.k.zombie_gap = (unsigned) w.num("zombie_gap", 1);
   p->w.k.stick_pct = (unsigned) w.num("stick_pct", 50);
+  p->w.k.core_dumps = (unsigned) w.num("core_dumps", 0);
+  p->w.k.clock_step_at_ms = (int64_t) w.num("clock_step_at_ms", -1);
+  p->w.k.clock_step_ms = (int64_t) w.num("clock_step_ms", 0);
   p->w.low_fds = (int) w.num("low_fds", 7);
+  p->w.sigpipe = (int) w.num("sigpipe", 0);
   const Json &ex = w.at("extra_fds");
   for (size_t i = 0; i < ex.size(); i++) { ExtraFd e; e.fd = (int) ex[i][0].as_int(); e.kind = (int) ex[i][1].as_int(); e.cloexec = ex[i][2].as_int() != 0; p->w.extra.push_back(e); }
   p->w.cwd_depth = (int) w.num("cwd_depth", 1);
@@ -129,7 +136,7 @@ bool Plan::from_json(const Json &j, Plan *p) {
     const Json &sc = ch[i].at("script");
     for (size_t k = 0; k < sc.size(); k++) {
       Step s;
-      for (int q = 0; q < 8; q++) if (sc[k][0].s == step_names[q]) s.k = (Step::K) q;
+      for (int q = 0; q < 9; q++) if (sc[k][0].s == step_names[q]) s.k = (Step::K) q;
       s.fd = (int) sc[k][1].as_int(); s.n = sc[k][2].as_int(); s.chunk = sc[k][3].as_int();
       c.script.push_back(s);
     }
